@@ -77,23 +77,24 @@ func PlanSeries(scripts []*parser.Script, labelNames []string) (shared.SQLReques
 	for _, s := range scripts {
 		selectorsCount += len(s.Selectors)
 	}
-	if selectorsCount == 0 {
-		return &AllTimeSeriesSelectPlanner{}, nil
-	}
-	fpPlanners := streamSelectorPlanners(scripts)
-	planners := make([]shared.SQLRequestPlanner, len(fpPlanners))
-	for i, fpPlanner := range fpPlanners {
-		planners[i] = &TimeSeriesSelectPlanner{
-			Fp:        fpPlanner,
-			Selectors: scripts[i].Selectors,
-		}
-	}
 	var planner shared.SQLRequestPlanner
-	if len(planners) == 1 {
-		planner = planners[0]
+	if selectorsCount == 0 {
+		planner = &AllTimeSeriesSelectPlanner{}
 	} else {
-		planner = &UnionAllPlanner{Mains: planners}
-		planner = &TimeSeriesDistinctPlanner{Main: planner}
+		fpPlanners := streamSelectorPlanners(scripts)
+		planners := make([]shared.SQLRequestPlanner, len(fpPlanners))
+		for i, fpPlanner := range fpPlanners {
+			planners[i] = &TimeSeriesSelectPlanner{
+				Fp:        fpPlanner,
+				Selectors: scripts[i].Selectors,
+			}
+		}
+		if len(planners) == 1 {
+			planner = planners[0]
+		} else {
+			planner = &UnionAllPlanner{Mains: planners}
+			planner = &TimeSeriesDistinctPlanner{Main: planner}
+		}
 	}
 	if len(labelNames) > 0 {
 		planner = &FilterLabelsPlanner{Main: planner, Labels: labelNames}
